@@ -23,7 +23,15 @@ Lib == [ R  |-> << <<"in">>, <<"out">> >>,
          P  |-> << <<"in">>, <<"panic">>, <<"out">> >>,
          WP |-> << <<"in">>, <<"write", 3, "full">>, <<"panic">> >>,
          PH |-> << <<"in">>, <<"catchnext">>, <<"out">> >>,
-         NP |-> << <<"in">>, <<"next">>, <<"panic">>, <<"out">> >> ]
+         NP |-> << <<"in">>, <<"next">>, <<"panic">>, <<"out">> >>,
+         \* pkg/handlers middleware called by a handler (the harness calls the real functions)
+         FH |-> << <<"in">>, <<"lib", "favicon-hit">>, <<"out">> >>,
+         FM |-> << <<"in">>, <<"lib", "favicon-miss">>, <<"out">> >>,
+         BN |-> << <<"in">>, <<"lib", "basicauth-none">>, <<"out">> >>,
+         BB |-> << <<"in">>, <<"lib", "basicauth-bad">>, <<"out">> >>,
+         BO |-> << <<"in">>, <<"lib", "basicauth-ok">>, <<"out">> >>,
+         TF |-> << <<"in">>, <<"lib", "timeout-fired">>, <<"out">> >>,
+         TI |-> << <<"in">>, <<"lib", "timeout-idle">>, <<"out">> >> ]
 
 Chains ==
   CASE Mode = "all"     -> UNION { { [i \in 1..n |-> Lib[f[i]]] : f \in [1..n -> Scripts] } : n \in MinN..MaxN }
@@ -35,8 +43,9 @@ Chains ==
 \* ie the longest chain registration accepts without global middleware has AbortIdx handlers
 ASSUME PrintT(ToJson([limit |-> [k \in 1..8 |-> [n |-> AbortIdx - 4 + k, accepted |-> (AbortIdx - 4 + k) - 1 < AbortIdx]]]))
 
-Init == \E c \in Chains : CursorInit(c)
-Next == CursorNext
+VARIABLE src       \* the chain as written (with "lib" ops); the machines run its expansion
+Init == \E c \in Chains : CursorInit(ExpandChain(c)) /\ src = c
+Next == CursorNext /\ UNCHANGED src
 
 \* one line per chain, when its run is complete: the ideal log is the prediction for the real code
 HookScript(h) == CASE h = "none" -> None
@@ -45,7 +54,7 @@ HookScript(h) == CASE h = "none" -> None
                     [] h = "statusbody" -> << <<"in">>, <<"status", 503>>, <<"write", 4, "full">>, <<"out">> >>
 OnErr == << <<"in">>, <<"status", 500>>, <<"out">> >>
 LineFor(h) == LET d == IdealDispatch(chain, OnErr, HookScript(h)) IN
-              [chain |-> chain, n |-> Len(chain), log |-> d.log, under |-> d.w.under, escaped |-> d.escaped, hooked |-> d.hooked,
+              [chain |-> src, n |-> Len(chain), log |-> d.log, under |-> d.w.under, escaped |-> d.escaped, hooked |-> d.hooked,
                checkw |-> TRUE, onerror |-> OnErr] @@ (IF h = "none" THEN <<>> ELSE [hook |-> HookScript(h)])
 Emit == ~Done \/ \A h \in Hooks : PrintT(ToJson(LineFor(h)))
 \* C08/C09 on the ideal dispatch (the writer functions mirror response_wirter.go, OneCommit is the statement)
